@@ -99,6 +99,7 @@ def run(repo, rep):
     rep.clause("C15-i", "IFM block depth per IFM precision (function interpreted): only 16-bit IFMs use the 16-deep block")
     rep.clause("C15-j", "parameter-named positional arguments of the block configuration search sit at their parameter's position")
     rep.clause("C15-l", "the LUT partition: on parts without reserved banks every stripe without a table invalidates the resident tables (no exemption by block type: elementwise operands reach the last banks) [rule shared with C03-f]")
+    rep.clause("C15-o", "the block-configuration query and the generator use the same per-operand test for 'the operation is scaled' (both work on the public API objects): every offered configuration is sized with the accumulator width the generator programs")
     rep.clause("C15-m", "scheduler, block-config query and generator derive 'the operation is scaled' (40-bit accumulators for 16-bit IFMs) from the same operands: the feature maps ifm, ifm2, ofm")
     rule_scaled_operands(repo, rep)
     rep.clause("C15-k", "resampling / rounding / activation modes are compared within one Enum class: the register enum and the API enum of the same name are different classes and never equal (annotation- and table-based class inference, comparisons and call arguments)")
@@ -840,6 +841,37 @@ def rule_scaled_operands(repo, rep):
                   "sized for 32-bit accumulators while the generator programs 40-bit ones ('block_config does not fit')")
     if n < 3:
         raise AnalysisError("fewer than 3 derivations of 'scaled'")
+    # (o) the public query and the generator work on the same API objects (NpuFeatureMap.quantization, whose scale_f32 is optional): the
+    # per-operand test 'this operand has no scaling' must be the same predicate in both, otherwise the query sizes 40-bit accumulators where
+    # the generator programs 32-bit ones (different bank granules) and offers configurations the generator rejects
+
+    def absent_predicates(mname, q):
+        m_ = repo.mod(mname)
+        fn_ = m_.func(q)
+        for node in ast.walk(fn_):
+            gens = []
+            if isinstance(node, ast.For) and isinstance(node.target, ast.Name):
+                gens = [(node.target.id, node.body)]
+            elif isinstance(node, (ast.GeneratorExp, ast.ListComp)):
+                gens = [(g.target.id, [node.elt]) for g in node.generators if isinstance(g.target, ast.Name)]
+            for var, body in gens:
+                preds = set()
+                for b in body:
+                    for c_ in ast.walk(b):
+                        if isinstance(c_, ast.Compare) and len(c_.ops) == 1 and isinstance(c_.ops[0], ast.Is) and str(norm(c_.comparators[0])) == "None" and str(norm(c_.left)).startswith(var + "."):
+                            preds.add(str(norm(c_.left))[len(var) + 1:])
+                if "quantization" in preds:
+                    return preds
+        raise AnalysisError(f"{mname}.{q}: per-operand scaling test not found")
+
+    gm_ = repo.mod("register_command_stream_generator")
+    gq = [k for k, f_ in gm_.functions.items() if any(isinstance(a, ast.Assign) and str(norm(a.targets[0])) == "all_fms_have_quant" for a in ast.walk(f_))]
+    if len(gq) != 1:
+        raise AnalysisError("generator: the derivation of all_fms_have_quant was not found")
+    pg, pq = absent_predicates("register_command_stream_generator", gq[0]), absent_predicates("api", "npu_find_block_configs")
+    rep.check(pg == pq, "C15-o", "ethosu/vela/api.py:npu_find_block_configs", f"an operand counts as unscaled under the same test as in the generator: absent {sorted(pg)}",
+              f"the query tests {sorted(pq)}, the generator {sorted(pg)}: a 16-bit operation whose operand has NpuQuantization(scale_f32=None) is sized with 40-bit accumulators by the query and 32-bit ones "
+              "by the generator (bank granules 12 / 8 on Ethos-U55-128): 12 of the 99 offered configurations are rejected with 'block_config does not fit'")
 
 
 def rule_shram_register_guards(repo, rep):
